@@ -61,13 +61,13 @@ func (eng) CoqRequire(mode string) string {
 func (eng) CoqCaseType(mode string) string { return "Check_align.case" }
 func (eng) CoqRun(mode string) string      { return "Check_align.run" }
 func (eng) Rule(mode string) string {
-	return "1..4 senders, 1..5 consecutive checkpoints, batch size 0(=1)..10, batch time-out on/off; every sender delivers HandleEventBatch calls through the real rpc adapters (rpc.OperatorEmbeddedClient, or rpc.OperatorConnectHandler with a connect.Request), one outstanding call per sender, batch boundaries drawn in four styles (single-event calls, short, long, cut at barriers: barrier first / in the middle / last, watermark or event right after a barrier in the same call); per-sender scripts of keyed events (unique ids, 3 subject keys, optional timer), per-sender increasing watermarks, barriers with increasing ids, occasional wrong-id barrier (alone in its call) while a checkpoint is in progress; in 40 % of the multi-runner cases some (never all) runners send SourceComplete at a random point and go on with watermarks and barriers only; in half of the cases the context of a parked call is cancelled (op cancel) while another runner's barrier is outstanding; in a third of the cases the sink (a connectors.SinkWriter wrapper; the handler emits one sink request per entry) fails its next Write, armed right before the handling of the last barrier while entries are pending (the flush in front of db.Checkpoint) or at random; in a quarter of the multi-runner cases HandleDeploy is called on the live operator in the middle of an alignment (no call outstanding, batch empty; same runners, fresh storage) and the new assembly reuses the aborted checkpoint id; schedules drawn from the enabled actions (gate/wake/handle/fire/timeout) with five biases (uniform, eager senders, sequential, one laggard sender, late wake-ups) plus probe handles of senders that must be parked, some cut short mid-checkpoint. Non-trivial: at least one checkpoint reported and (a sender parked, or entries pending in the batch when the last barrier arrived, or an event passed the gate before a checkpoint started and was handled during it); distinct by hash of parameters and ops."
+	return "1..4 senders, 1..5 consecutive checkpoints, batch size 0(=1)..10, batch time-out on/off; every sender delivers HandleEventBatch calls through the real rpc adapters (rpc.OperatorEmbeddedClient, or rpc.OperatorConnectHandler with a connect.Request), one outstanding call per sender, batch boundaries drawn in four styles (single-event calls, short, long, cut at barriers: barrier first / in the middle / last, watermark or event right after a barrier in the same call); per-sender scripts of keyed events (unique ids, 3 subject keys, optional timer), per-sender increasing watermarks, barriers with increasing ids, occasional wrong-id barrier (alone in its call) while a checkpoint is in progress; in 40 % of the multi-runner cases some (never all) runners send SourceComplete at a random point and go on with watermarks and barriers only; in half of the cases the context of a parked call is cancelled (op cancel) while another runner's barrier is outstanding; in a third of the cases the sink (a connectors.SinkWriter wrapper; the handler emits one sink request per entry) fails its next Write, armed right before the handling of the last barrier while entries are pending (the flush in front of db.Checkpoint) or at random; in a quarter of the multi-runner cases HandleDeploy is called on the live operator in the middle of an alignment (no call outstanding, batch empty; same runners, fresh storage) and the new assembly reuses the aborted checkpoint id; a third of the delivered time-out tokens meet a handler that fails its next ProcessEventBatch call (op timeoutfail: the flush of the timed-out partial batch fails; observed: the event loop is still there, or Start returned); schedules drawn from the enabled actions (gate/wake/handle/fire/timeout) with five biases (uniform, eager senders, sequential, one laggard sender, late wake-ups) plus probe handles of senders that must be parked, some cut short mid-checkpoint. Non-trivial: at least one checkpoint reported and (a sender parked, or entries pending in the batch when the last barrier arrived, or an event passed the gate before a checkpoint started and was handled during it); distinct by hash of parameters and ops."
 }
 
 // ---------- case format ----------
 
 type op struct {
-	Act  string `json:"act"` // gate | wake | handle | fire | timeout | cancel
+	Act  string `json:"act"` // gate | wake | handle | fire | timeout | timeoutfail | cancel | fault | redeploy
 	S    int    `json:"s"`
 	Kind string `json:"kind,omitempty"` // ev | wm | bar | done (gate only)
 	ID   uint64 `json:"id,omitempty"`
@@ -216,6 +216,7 @@ func genCase(r *hx.Rand, idx int, tier string) *hx.Case {
 		maxSize = hx.Pick(r, []int{0, 1, 1, 2})
 	}
 	nRedeploy := 0
+	tfCase, tfDone := delay && r.Chance(1, 4), false
 	// the generator's estimate of "the operator's batch is certainly empty" (same rule as the executor's)
 	msz := maxSize
 	if msz == 0 {
@@ -305,10 +306,20 @@ func genCase(r *hx.Rand, idx int, tier string) *hx.Case {
 		if delay && r.Chance(1, 10) {
 			if r.Bool() {
 				emit(op{Act: "fire"})
+			} else if r.Chance(1, 3) {
+				emit(op{Act: "timeoutfail"}) // a handler outage exactly on the time-out flush: the operator must stop
+				gUnknown = true
 			} else {
 				emit(op{Act: "timeout"})
 				gUnknown = true
 			}
+			continue
+		}
+		if tfCase && !tfDone && gPend > 0 && !gUnknown && r.Chance(1, 6) {
+			// the time-out of the partial batch fires and the handler fails exactly on that flush
+			emit(op{Act: "fire"})
+			emit(op{Act: "timeoutfail"})
+			tfDone, gUnknown = true, true
 			continue
 		}
 		if faults && r.Chance(1, 60) {
@@ -543,7 +554,10 @@ func evSplit(evs []evRec) (string, []any) {
 }
 func (r *recorder) completions() int { r.mu.Lock(); defer r.mu.Unlock(); return r.ck }
 
-type recHandler struct{ rec *recorder }
+type recHandler struct {
+	rec      *recorder
+	failNext atomic.Bool // the next ProcessEventBatch call fails (a handler outage)
+}
 
 func keyBytes(k uint64) []byte { return []byte(fmt.Sprintf("k%d", k)) }
 func keyNum(b []byte) uint64 {
@@ -559,6 +573,9 @@ func (h *recHandler) KeyEventBatch(ctx context.Context, events [][]byte) ([][]*h
 // every entry of the batch becomes a put under its own entry key, so that the content of a checkpoint
 // reveals exactly which entries had been applied
 func (h *recHandler) ProcessEventBatch(ctx context.Context, req *handlerpb.ProcessEventBatchRequest) (*handlerpb.ProcessEventBatchResponse, error) {
+	if h.failNext.CompareAndSwap(true, false) {
+		return nil, fmt.Errorf("injected handler failure")
+	}
 	var items []string
 	var jitems []any
 	resp := &handlerpb.ProcessEventBatchResponse{}
@@ -788,8 +805,10 @@ func (eng) Execute(mode string, c *hx.Case) (*hx.Result, error) {
 	}
 	job := &recJob{rec: rec, dir: dir}
 	sink := &faultSink{}
+	handler := &recHandler{rec: rec}
+	startReturned := false
 	opr := operator.NewOperator(operator.NewOperatorParams{
-		ID: "op0", Job: job, UserHandler: &recHandler{rec: rec}, EventBatching: bp,
+		ID: "op0", Job: job, UserHandler: handler, EventBatching: bp,
 	})
 	ctx, cancel := context.WithCancel(context.Background())
 	defer cancel()
@@ -842,9 +861,11 @@ func (eng) Execute(mode string, c *hx.Case) (*hx.Result, error) {
 	}
 	defer func() {
 		opr.Stop()
-		select {
-		case <-started:
-		case <-time.After(watchdog):
+		if !startReturned {
+			select {
+			case <-started:
+			case <-time.After(watchdog):
+			}
 		}
 		close(quit)
 	}()
@@ -1192,6 +1213,44 @@ func (eng) Execute(mode string, c *hx.Case) (*hx.Result, error) {
 			inProgress, timersPossible, nDone = false, false, 0
 			for i := range doneSent {
 				doneSent[i], ckStartedAtGate[i] = false, false
+			}
+		case "timeoutfail":
+			// the oldest in-flight time-out token is delivered while the handler fails its next call: if that token
+			// flushes a batch, the flush fails. Either the event loop is still there afterwards (VerifSync returns)
+			// or the operator has stopped (Start returned): both are signals of the code, no timing involved.
+			if sink.armed.Load() {
+				continue
+			}
+			f := tm.pop()
+			if f == nil {
+				continue
+			}
+			handler.failNext.Store(true)
+			fin := make(chan struct{})
+			go func() { f(); opr.VerifSync(); close(fin) }()
+			stopped := false
+			select {
+			case <-fin:
+			case <-started:
+				stopped, startReturned = true, true
+			case <-time.After(watchdog):
+				stuck(5, o)
+				aborted = true
+				continue
+			}
+			consumed := !handler.failNext.Swap(false)
+			et, ej := evTerm()
+			obs = append(obs, fmt.Sprintf("OTimeoutFail %s %s", hx.CoqBool(stopped), et))
+			jobs = append(jobs, map[string]any{"timeout_with_failing_handler": ej, "handler_failed": consumed, "operator_stopped": stopped})
+			switch {
+			case stopped:
+				tags["timeout-flush-failed:operator-stopped"] = true
+				aborted = true // nothing can be delivered to a stopped operator
+			case consumed:
+				tags["TIMEOUT-FLUSH-FAILED:OPERATOR-GOES-ON"] = true
+				pend, pendUnknown = 0, false
+			default:
+				tags["timeout-fail-stale-or-empty"] = true
 			}
 		case "timeout":
 			if sink.armed.Load() {
